@@ -779,4 +779,28 @@ def joinGoE (joiner : List γ) (disp : α → Out (List γ)) : Bool → List γ 
 def joinE (joiner : List γ) (disp : α → Out (List γ)) (it : List α) : Out (List γ) :=
   joinGoE joiner disp false [] it
 
+/-! ## how many times the callback is called
+`seqFoldGoN` is `seqFoldGo` (the loop of `SeqAndMappedFoldBuiltin::run` / `run1` / `run2`) with a
+counter of the calls of `f` made so far: the loop stops right after the deciding element. -/
+
+def seqFoldGoN (f : α → Out β) (body : γ → β → Step γ) : γ → Nat → List α → Out γ × Nat
+  | state, n, [] => (.ok state, n)
+  | state, n, e :: it =>
+    match f e with
+    | .ok y =>
+      match body state y with
+      | .next r => seqFoldGoN f body r (n + 1) it
+      | .brk r => (.ok r, n + 1)
+      | .throw => (.throw, n + 1)
+      | .panic => (.panic, n + 1)
+    | .throw => (.throw, n + 1)
+    | .panic => (.panic, n + 1)
+
+/-- the number of elements visited by a loop that stops right after the first element whose
+callback outcome satisfies `stop` (`find`, `locate`, `take` / `drop` with a predicate stop at the
+deciding element or at a failure; `map`, `filter`, … only at a failure) -/
+def callsUntil (stop : Out β → Bool) (f : α → Out β) : List α → Nat
+  | [] => 0
+  | x :: xs => if stop (f x) then 1 else 1 + callsUntil stop f xs
+
 end Noulith.SeqLib
